@@ -38,7 +38,10 @@ def specs(bridge):
           T('SEQUENCEOF', elem=T('INTEGER')), T('SETOF', elem=T('BITSTRING')),
           T('CHOICE', fields=[('i', T('INTEGER'), 'req'), ('s', T('OCTETSTRING'), 'req'), ('q', T('SEQUENCEOF', elem=T('NULL')), 'req')]),
           T('CHOICE', [('E', 128, 0)], fields=[('i', T('INTEGER'), 'req'), ('r', T('REAL'), 'req')]),
-          T('INTEGER', [('E', 128, 1)]), T('ANY'), T('GeneralizedTime'), T('BMPString')]
+          T('INTEGER', [('E', 128, 1)]), T('ANY'), T('GeneralizedTime'), T('BMPString'),
+          T('SEQUENCE', fields=[('a', T('INTEGER'), 'req')]),
+          T('SEQUENCE', fields=[('a', T('INTEGER'), 'req'), ('b', T('INTEGER'), 'opt')]),
+          T('SET', fields=[('a', T('INTEGER'), 'req')])]
     return [None] + [bridge.to_type(t) for t in ts]
 
 
@@ -135,6 +138,29 @@ def inputs(tier, seed):
         body = bytes(rng.choice(ALPHABET) for _ in range(rng.randrange(0, 6)))
         ln = rng.choice([len(body), len(body), len(body) + 1, max(0, len(body) - 1), 0x80, 0x81])
         out.append(bytes([t, ln & 0xff]) + body + (b'\x00\x00' if ln == 0x80 else b''))
+    # structured damage: excess / repeated members in definite and indefinite containers
+    for tag_ in (0x30, 0x31):
+        for inner in (b'\x02\x01\x01', b'\x02\x01\x01\x02\x01\x02', b'\x02\x01\x01\x02\x01\x02\x02\x01\x03',
+                      b'\x02\x01\x01\x04\x01a\x02\x01\x02', b'\x04\x01a'):
+            out.append(bytes([tag_, len(inner)]) + inner)
+            out.append(bytes([tag_, 0x80]) + inner + b'\x00\x00')
+    # REAL in character form with odd text, all three NR forms
+    for nr in (1, 2, 3, 0, 4):
+        for txt in (b'nan', b'inf', b'-inf', b'1', b'1.', b'.', b'1E', b'E1', b'--1', b'1e9999', b' 1', b'0x10', b'1_0',
+                    b'1.5', b'-0', b'+1.0E+2', b'', b'\xff'):
+            out.append(bytes([9, len(txt) + 1, nr]) + txt)
+    out.append(bytes([9, 0x82, 1, 0x92, 1]) + b'1' + b'0' * 400)      # NR1 10**400
+    out.append(bytes([9, 0x82, 1, 0x93, 2]) + b'1' + b'0' * 399 + b'.0')
+    # binary REAL corner cases
+    for body in (b'\x80', b'\x80\x00', b'\x83\x00', b'\x83\x01\x00', b'\x83\xff' + b'\x00' * 3, b'\xb0\x00\x01',
+                 b'\x42', b'\x43', b'\x7f', b'\x80\x7f\x01', b'\x81\x7f\xff\x01'):
+        out.append(bytes([9, len(body)]) + body)
+    for body in itertools.product((0x00, 0x01, 0x03, 0x05, 0x7f, 0x80, 0x83, 0xff), repeat=3):
+        out.append(bytes([9, 3]) + bytes(body))
+        if body[0] in (0x83, 0x80):
+            out.append(bytes([9, 4]) + bytes(body) + b'\x01')
+    # explicit tags with nothing / too much inside
+    out += [b'\xa0\x00', b'\xa0\x80\x00\x00', b'\xa1\x06\x02\x01\x01\x02\x01\x02', b'\xa1\x80\x02\x01\x01\x02\x01\x02\x00\x00']
     # single-edit neighbours of valid encodings
     M = _imports()
     be, bd, ce, cd, de, dd, error, bridge = M
